@@ -437,6 +437,7 @@ def check_C01(rep, fl):
     # ... and the TTL sweep releases the charge of exactly the entries it removes (a resident entry that lost its
     # charge lets later admissions overfill the cache)
     props_store.check_sweeper(rep, fl)
+    props_store.check_store_writes(rep, fl, prop="C01")   # R06.7: a victim's wildcard removal is carried out
     # ... and charges are wiped (policy.clear) on the processor only, between items: a reset from a client thread
     # un-charges entries the processor has admitted meanwhile, and later admissions overfill the cache
     import props_life as _pl
